@@ -23,6 +23,7 @@ struct MiniOutcome {
     std::uint64_t hash = 0;      // event log hash
     std::uint64_t signature = 0; // distinctness
     bool nontrivial = false;
+    bool poisoned = false; // process state may be corrupt: restart the worker
     std::map<std::string, std::uint64_t> counters;
 };
 
@@ -178,7 +179,9 @@ inline int mini_run(
                 fprintf(out, "S %ld\n", k);
                 fflush(out);
                 J c = e.gen(seed_of(k), tier, k);
+                alarm(60);
                 MiniOutcome o = e.run(c);
+                alarm(0);
                 for (auto& kv : o.counters)
                     cc[kv.first] += kv.second;
                 fprintf(
@@ -193,6 +196,12 @@ inline int mini_run(
                     fflush(out);
                     _exit(3);
                 }
+                if (o.poisoned) {
+                    flush_counters();
+                    fprintf(out, "K %ld\n", k);
+                    fflush(out);
+                    _exit(4);
+                }
                 if ((k - i) % 128 == 127)
                     flush_counters();
             }
@@ -205,7 +214,7 @@ inline int mini_run(
         FILE* in = fdopen(fds[0], "r");
         static char line[1 << 16];
         long started = -1, finished = -1, failed_at = -1;
-        bool done = false;
+        bool done = false, restart = false;
         std::map<std::string, std::uint64_t> child_counters;
         while (fgets(line, sizeof line, in)) {
             if (line[0] == 'S')
@@ -239,12 +248,18 @@ inline int mini_run(
                 }
             } else if (line[0] == 'D')
                 done = true;
+            else if (line[0] == 'K')
+                restart = true;
         }
         fclose(in);
         int st = 0;
         waitpid(pid, &st, 0);
         for (auto& kv : child_counters)
             counters[kv.first] += kv.second;
+        if (restart && failed_at < 0) {
+            i = finished + 1;
+            continue;
+        }
         long bad = failed_at >= 0 ? failed_at
             : (!done && !(WIFEXITED(st) && WEXITSTATUS(st) == 0) &&
                started > finished)
